@@ -1,10 +1,11 @@
 (* C05 -- every file written is a well-formed EMD 1.0 file.  Statements only.
-   PARTIAL: proved are layout facts about what the writer produces (for every tree): valid tags on every node
-   group, tagged bundles of tagged typed items, the header passing the package detector, the bundle created by
-   the append path being tagged, and (C09/C18 files) that a replace leaves no scratch group.  The complete
-   validator (incl. Array data/dim datasets, and every dispatch branch of write.py) runs on real files in the
-   harness after every successful save of every scenario. *)
-From Emd Require Import Base.Prelude Model.H5 Model.Emd Generated.Tables Proofs.PTree Proofs.P05 Proofs.P20.
+   Proved: a validator wf_emd (the Coq twin of the harness's h5py-only validator) accepts every file a fresh save of a
+   whole tree produces and every file an append (C09's union) leaves; plus the individual layout facts (valid tags on
+   every node group, tagged bundles of tagged typed items, the header passing the package detector, the bundle
+   created by the append path tagged, no scratch group after a replace: C09/C18).  PARTIAL: partial saves, emdpath
+   appends, append-over and list saves are validated on real files by the harness after every successful save of
+   every scenario, not by a theorem. *)
+From Emd Require Import Base.Prelude Model.H5 Model.Emd Generated.Tables Proofs.PTree Proofs.P05 Proofs.P20 Proofs.PRead Proofs.PUnion Proofs.PWf.
 From Emd Require Generated.Version.
 
 Theorem C05_every_node_group_is_tagged :
@@ -49,3 +50,40 @@ Theorem C05_bundle_created_by_append_is_tagged :
     exists b, get (olinks rg') "metadatabundle" = Some b /\ attr_is b "emd_group_type" "metadatabundle" = true.
 Proof. exact appended_bundle_tagged. Qed.
 Print Assumptions C05_bundle_created_by_append_is_tagged.
+
+(* ---------- the whole validator.  wf_emd (Proofs/PWf.v) is the Coq twin of the h5py-only validator the harness runs on
+   every real file: header (type "file", version 1.0, UUID, program and user of the session), at least one top-level
+   group, each tagged root; every node group tagged with a data group type and a python_class; an Array group with
+   its data (units) and one named calibration dataset with units per axis, of 2 entries or the axis extent; metadata
+   in a tagged bundle of tagged Metadata groups of typed items; no scratch group.  plain_tree: nodes below the top are
+   not Roots, are not called like the bundle and have no scratch-like name. *)
+Theorem C05_a_saved_whole_tree_passes_the_validator :
+  forall c root tr f, rcls root = CRoot -> ok_tree root -> plain_tree root -> tr <> Some false ->
+    fresh_file c root [] tr = Ok f -> wf_emd c f = true.
+Proof.
+  intros c root tr f Hc Hok Hp Htr Hf. rewrite (fresh_file_whole_tree c root tr Hc Hok Htr) in Hf. injection Hf as <-.
+  apply (wf_whole_file c root Hc Hp).
+Qed.
+Print Assumptions C05_a_saved_whole_tree_passes_the_validator.
+
+(* ... and so does the file an append leaves (any append mode, whole runtime tree, same root; hypotheses of C09's union) *)
+Theorem C05_the_file_after_an_append_passes_the_validator :
+  forall c c0 m root md tr,
+    In md appendmode -> tr <> Some false ->
+    rcls m = CRoot -> rname root = rname m -> ok_tree m -> compat m root ->
+    (rmds m <> [] \/ rmds root = []) -> NoDup (keys (rmds root)) ->
+    plain_tree m -> plain_tree root ->
+    exists f, write_node c (H5 (whole_file c0 m)) root [] (WA md tr None) = (Ok tt, H5 f) /\ wf_emd c0 f = true.
+Proof. exact wf_after_append. Qed.
+Print Assumptions C05_the_file_after_an_append_passes_the_validator.
+
+(* the validator is not vacuous: it rejects an untagged child group, a missing calibration dataset and a scratch group *)
+Example C05_validator_rejects :
+  let c := CFG "emdfile" "" in
+  let ok := RN CRoot "r" 0%Z 0 [] [RN CArray "a" 7%Z 2 [("m", 1%Z)] []] in
+  wf_emd c (whole_file c ok) = true /\
+  wf_emd c (G (header c) [("r", G (tags "root" "Root") [("x", G [] [])])]) = false /\
+  wf_emd c (G (header c) [("r", G (tags "root" "Root") [("a", G (tags "array" "Array") [("data", D [("units", AStr "")] [3; 3]%nat 7%Z); dim_dataset 0])])]) = false /\
+  wf_emd c (G (header c) [("r", G (tags "root" "Root") [("_tmp_a", G (tags "node" "Node") [])])]) = false /\
+  wf_emd c (G [] [("r", G (tags "root" "Root") [])]) = false.
+Proof. vm_compute. repeat split. Qed.
